@@ -202,6 +202,23 @@ func init() {
 		}
 		extra = append(extra, Phase{Name: fmt.Sprintf("S2 from a quiescent 4-validator network, 4 role assignments (A,S): all sequences of length %d over %d actions (A pulls from S, S pulls from a third validator, submission at S, S silent for good, other gossip), then the fair suffix among the rest", idleDepth, nIdle),
 			Items: idleItems})
+		// a validator that comes back: restarted empty with fast-sync, or from its database (bootstrap) with fast-sync
+		// enabled; its own newer events come back to it from its peers. Runs in which it unknowingly reused a height
+		// (equivocation) are outside the property and only counted.
+		{
+			var rs []sched.Item
+			stride := 4
+			if th {
+				stride = 1
+			}
+			for down := 8; down <= 40; down += stride {
+				for _, gap := range []int{4, 16, 28} {
+					rs = append(rs, sched.Item{Scenario: fmt.Sprintf("ffrestart:4:90:3:%d:%d:0", down, down+gap), Mode: "s3", Mons: mons, Suffix: 40})
+					rs = append(rs, sched.Item{Scenario: fmt.Sprintf("ffboot:3:100:2:%d:%d:0", down+2, down+2+gap), Mode: "s3", Mons: mons, Suffix: 40})
+				}
+			}
+			extra = append(extra, Phase{Name: "a validator stops at d and comes back 4/16/28 steps later (restarted empty with fast-sync, n=4; restarted from its database with fast-sync enabled, n=3), then the seed goes on and the fair suffix follows", Items: rs})
+		}
 		// the standard S1 phases without suffix add nothing for liveness: keep the S3 phases only
 		var keep []Phase
 		for _, p := range ph {
@@ -228,7 +245,7 @@ func init() {
 		}
 		return runCluster(ClusterCheck{
 			Prop: "C06", Level: "model_checking", Budget: budget(b), Phases: ph, Floor: 50,
-			Rule: "every explored prefix (all sequences to the stated depth; all schedules within the stated deviations of the seeds, incl. truncated / lost exchanges and one validator of 4 or 5 silent from some point) is followed by fair all-pairs cycles among the live nodes; bounded liveness as a safety property: within 40 cycles all live nodes are idle (!busy), every transaction and membership request accepted by a live node and every payload-carrying event held by a live node at suffix start is committed at all of them, chains have equal length (C01 monitor checks equality of content). max_fair_cycles_to_quiescence reports the margin",
+			Rule: "every explored prefix (all sequences to the stated depth; all schedules within the stated deviations of the seeds, incl. truncated / lost exchanges and one validator of 4 or 5 silent from some point) is followed by fair all-pairs cycles among the live nodes; bounded liveness as a safety property: within 40 cycles all live nodes are idle (!busy), every transaction and membership request accepted by a live node and every payload-carrying event held by a live node at suffix start is committed at all of them, chains have equal length (C01 monitor checks equality of content); runs in which a restarted validator reused a height it had used before (equivocation) are excluded and counted. max_fair_cycles_to_quiescence reports the margin",
 			Extra: func(cov map[string]interface{}, agg *Agg) {
 				cov["cycle_bound"] = 40
 			},
